@@ -5,6 +5,9 @@ pub mod c02;
 pub mod c11;
 pub mod c12;
 pub mod c13;
+pub mod c15;
+pub mod c16;
+pub mod c18;
 
 pub fn all() -> Vec<Box<dyn PropDyn>> {
     vec![
@@ -13,5 +16,8 @@ pub fn all() -> Vec<Box<dyn PropDyn>> {
         Box::new(c11::prop()),
         Box::new(c12::prop()),
         Box::new(c13::prop()),
+        Box::new(c15::prop()),
+        Box::new(c16::prop()),
+        Box::new(c18::prop()),
     ]
 }
